@@ -48,8 +48,8 @@ def classTable : List ((String × String × String) × Class) := [
   (("internal/constructor", "Generator", "typeParams"), .reset),    -- parseFields (assigned from a local)
   (("internal/constructor", "Generator", "typeParamsMap"), .reset), -- parseFields
   (("internal/constructor", "Generator", "fields"), .reset),        -- parseFields
-  (("internal/constructor", "Generator", "hasNew"), .carried),      -- only ever set to true (extractTopFiels)
-  (("internal/constructor", "Generator", "getsetMethods"), .carried), -- only ever appended to (makeGetSet)
+  (("internal/constructor", "Generator", "hasNew"), .reset),        -- MakeData (since 2659527; was carried)
+  (("internal/constructor", "Generator", "getsetMethods"), .reset), -- MakeData (since 2659527; was carried)
   (("internal/constructor", "Generator", "getter"), .reset),        -- MakeData
   (("internal/constructor", "Generator", "setter"), .reset),        -- MakeData
   -- enumer.Generator
@@ -67,8 +67,8 @@ def classTable : List ((String × String × String) × Class) := [
   (("internal/mapper", "Generator", "unexportedFields"), .reset),   -- parseSrcFields
   (("internal/mapper", "Generator", "destExportedFields"), .reset), -- parseDestFields
   (("internal/mapper", "Generator", "destUnexportedFields"), .reset), -- parseDestFields
-  (("internal/mapper", "Generator", "getsetMethods"), .carried),    -- parseSrcGetSetMethods: only for ShootNew types
-  (("internal/mapper", "Generator", "destGetSetMethods"), .carried), -- parseDestGetSetMethods: only for ShootNew types
+  (("internal/mapper", "Generator", "getsetMethods"), .reset),      -- MakeData (since 002876f; was carried)
+  (("internal/mapper", "Generator", "destGetSetMethods"), .reset),  -- MakeData (since 002876f; was carried)
   (("internal/mapper", "Generator", "srcPtrTypeMap"), .reset),      -- parseSrcFields
   (("internal/mapper", "Generator", "destPtrTypeMap"), .reset),     -- parseDestFields
   (("internal/mapper", "Generator", "srcPathsMap"), .reset),        -- makeReadCond
@@ -80,8 +80,8 @@ def classTable : List ((String × String × String) × Class) := [
   (("internal/mapper", "Generator", "writeSrcMap"), .reset),        -- makeTypeMismatch
   (("internal/mapper", "Generator", "srcTagMap"), .reset),          -- parseSrcFields
   (("internal/mapper", "Generator", "newShooter"), .derived),       -- memoised constant interface
-  (("internal/mapper", "Generator", "srcCtorParams"), .carried),    -- parseCtors: only for ShootNew types
-  (("internal/mapper", "Generator", "destCtorParams"), .carried),   -- parseCtors: only for ShootNew types
+  (("internal/mapper", "Generator", "srcCtorParams"), .reset),      -- MakeData (since 002876f; was carried)
+  (("internal/mapper", "Generator", "destCtorParams"), .reset),     -- MakeData (since 002876f; was carried)
   -- restclient.Generator
   (("internal/restclient", "Generator", "GeneratorBase"), .config),
   (("internal/restclient", "Generator", "data"), .reset),
@@ -106,14 +106,11 @@ def resetSites : List String :=
   ["MakeData", "parseFields", "parseSrcFields", "parseDestFields", "makeReadCond", "loadMorePkgs",
    "parseManual", "makeTypeMismatch"]
 
-/-- the carried fields that the model exposes through `Leaks` (all but `overlay`) and the function in
-    which the only plain assignment (if any) sits today – under a condition, i.e. not a reset -/
-def leakFields : List (String × String × String) := [
-  ("internal/constructor", "hasNew", "extractTopFiels"),
-  ("internal/mapper", "srcCtorParams", "parseCtors"),
-  ("internal/mapper", "destCtorParams", "parseCtors"),
-  ("internal/mapper", "getsetMethods", "parseSrcGetSetMethods"),
-  ("internal/mapper", "destGetSetMethods", "parseDestGetSetMethods")]
+/-- the fields that the model exposes through `Leaks`: each must be assigned unconditionally in `MakeData` -/
+def leakFields : List (String × String) := [
+  ("internal/constructor", "hasNew"), ("internal/constructor", "getsetMethods"),
+  ("internal/mapper", "srcCtorParams"), ("internal/mapper", "destCtorParams"),
+  ("internal/mapper", "getsetMethods"), ("internal/mapper", "destGetSetMethods")]
 
 /-! ## Regions: is the carried state *relevant* for a type? -/
 
